@@ -2,6 +2,7 @@
 #define PHOTOSPLINE_FITSIO_H
 
 #include <string.h>
+#include <cmath>
 
 namespace photospline{
 	
@@ -418,6 +419,21 @@ bool splinetable<Alloc>::read_fits_core(fitsfile* fits, const std::string& fileP
 		fits_read_pix(fits, TDOUBLE, &fpix, nknots[i], NULL, &knots[i][0], NULL, &error);
 		if (error != 0)
 			throw std::runtime_error("Error reading knot vector "+std::to_string(i)+" data");
+	}
+	
+	//Check that the pieces fit together: evaluation indexes the coefficient
+	//array by knot position and searches the knots assuming they are sorted
+	for (unsigned i = 0; i < ndim; i++) {
+		if (nknots[i] < 2*uint64_t(order[i])+2 || naxes[i] != nknots[i]-order[i]-1)
+			throw std::runtime_error("Inconsistent order ("+std::to_string(order[i])
+			                         +"), number of knots ("+std::to_string(nknots[i])
+			                         +") and number of coefficients ("+std::to_string(naxes[i])
+			                         +") in dimension "+std::to_string(i));
+		for (uint64_t j = 0; j < nknots[i]; j++) {
+			if (!std::isfinite(knots[i][j]) || (j > 0 && knots[i][j] < knots[i][j-1]))
+				throw std::runtime_error("Knot vector "+std::to_string(i)
+				                         +" is not finite and non-decreasing");
+		}
 	}
 	
 	//Read the axes extents, stored in a single extension HDU.
